@@ -274,6 +274,9 @@ STREAM_PATS = [[b"ab"], [b"a"], [b"aa"], [b"ab", b"b"], [b"abc", b"bc", b"c"], [
                [b"abab", b"ba"], [b"a", b"b"], [b"abcab"], [b"bb", b"abb", b"b"], [b"aaa", b"aa"]]
 
 
+STREAM_OPS = ["stream", "streamrep", "streamrepwith"]
+
+
 def compositions(n):
     """all ways to split n bytes into positive read sizes"""
     if n == 0:
@@ -364,19 +367,20 @@ def _stream_reqs(g, tier, op, faults=False):
 
 def gen_C07(tier, seed):
     g = Gen(seed)
-    return {"reqs": _stream_reqs(g, tier, "stream"), "certs": [], "gen": g}
+    return {"reqs": _stream_reqs(g, tier, "stream"), "certs": [], "gen": g, "needs_consts": STREAM_OPS}
 
 
 def gen_C08(tier, seed):
     g = Gen(seed)
-    return {"reqs": _stream_reqs(g, tier, "streamrep") + _stream_reqs(g, tier, "streamrepwith"), "certs": [], "gen": g}
+    return {"reqs": _stream_reqs(g, tier, "streamrep") + _stream_reqs(g, tier, "streamrepwith"), "certs": [], "gen": g,
+            "needs_consts": STREAM_OPS}
 
 
 def gen_C18(tier, seed):
     g = Gen(seed)
     reqs = _stream_reqs(g, tier, "stream", faults=True) + _stream_reqs(g, tier, "streamrep", faults=True) + \
         _stream_reqs(g, tier, "streamrepwith", faults=True)
-    return {"reqs": reqs, "certs": [], "gen": g}
+    return {"reqs": reqs, "certs": [], "gen": g, "needs_consts": STREAM_OPS}
 
 
 UTF8_CHARS = ["a", "b", "é", "ß", "€", "中", "😀", "x"]
